@@ -271,10 +271,15 @@ class H2Protocol:
         for event in events:
             if isinstance(event, h2.events.RequestReceived):
                 if self.context.terminated.is_set():
-                    self.connection.reset_stream(event.stream_id)
-                    self.connection.update_settings(
-                        {h2.settings.SettingCodes.MAX_CONCURRENT_STREAMS: 0}
-                    )
+                    try:
+                        self.connection.reset_stream(event.stream_id)
+                        self.connection.update_settings(
+                            {h2.settings.SettingCodes.MAX_CONCURRENT_STREAMS: 0}
+                        )
+                    except h2.exceptions.ProtocolError:
+                        # The connection has closed (a GOAWAY in
+                        # the same read, or the request limit)
+                        pass
                 else:
                     await self._create_stream(event)
                     await self.send(Updated(idle=self.idle))
